@@ -260,9 +260,21 @@ Definition enc4 (v : Z) : list Z :=
   let v3 := Z.shiftr v2 6 in
   let b0 := cchar (Z.lor 240 (Z.land v3 7)) in
   [b0; b1; b2; b3].
+(* the literal constants of the C text, named so that the harness can compare them with the source
+   (props/C18.py c_padded_consts): value < 0x800, value < 0x10000, value <= 255,
+   padding_length <= 250, char chars[256], value < 0xD800 || value > 0xDFFF *)
+Definition ENC2_LIMIT : Z := 2048.
+Definition ENC3_LIMIT : Z := 65536.
+Definition LATIN1_MAX : Z := 255.
+Definition PAD_LIMIT : Z := 250.
+Definition CHARS_SIZE : Z := 256.
+Definition SURR_LO : Z := 55296.
+Definition SURR_HI : Z := 57343.
+Definition padded_consts : list Z := [ENC2_LIMIT; ENC3_LIMIT; LATIN1_MAX; PAD_LIMIT; CHARS_SIZE; SURR_LO; SURR_HI].
+
 (* if (value < 0x800) {...} else if (value < 0x10000) {...} else {...} *)
 Definition utf8_enc_c (v : Z) : list Z :=
-  if v <? 2048 then enc2 v else if v <? 65536 then enc3 v else enc4 v.
+  if v <? ENC2_LIMIT then enc2 v else if v <? ENC3_LIMIT then enc3 v else enc4 v.
 
 Definition is_cont (b : Z) : bool := (128 <=? b) && (b <=? 191).
 Definition is_surrogate (cp : Z) : bool := (55296 <=? cp) && (cp <=? 57343).
@@ -300,13 +312,11 @@ Fixpoint utf8_decode (l : list Z) : option (list Z) :=
     else None
   end.
 
-Definition CHARS_SIZE : Z := 256.                    (* char chars[256] *)
-
 (* __Pyx_PyUnicode_FromOrdinal_Padded(int value, ulength, padding_char) with explicit bytes *)
 Definition from_ordinal_padded_b (iv ulength pad : Z) : cres :=
   let plen := ulength - 1 in
-  if (plen <=? 250) && ((iv <? 55296) || (57343 <? iv)) then
-    if iv <=? 255 then
+  if (plen <=? PAD_LIMIT) && ((iv <? SURR_LO) || (SURR_HI <? iv)) then
+    if iv <=? LATIN1_MAX then
       (* memset(chars, padding_char, plen); chars[ulength-1] = (char) value; DecodeLatin1(chars, ulength) *)
       if (plen <? 0) || (CHARS_SIZE <? ulength) then CBufferOverflow
       else CText (repeat (cchar pad) (Z.to_nat plen) ++ [cchar iv])
